@@ -413,6 +413,41 @@ _READS_N = 0
 ARITHMETIC = {'DivisionByZero', 'InvalidOperation', 'DivisionUndefined', 'DivisionImpossible', 'Overflow', 'ZeroDivisionError'}
 
 
+def _twin_outcome(twin, op):
+    try:
+        r2 = edits.apply_op(twin, op)
+    except edits.DonorError:
+        return None
+    except Exception as e:
+        return ('harness', type(e).__name__)
+    try:
+        return (r2[0] if r2[0] == 'ok' else r2[1], intro.pr(twin))
+    except Exception as e:
+        return ('unprintable', type(e).__name__)
+
+
+def o_twin(root, pre, op, res, extra):
+    """The same operation on the edited document and on a deep copy of it taken just before (same content, no history -
+    no cached view, no registered handler, nothing remembered) has the same outcome and prints the same text."""
+    tw = extra.get('twin') if extra else None
+    if tw is None or (op.get('val') or {}).get('t') == 'foreign' or any((a or {}).get('t') == 'foreign' for a in op.get('args', []) if isinstance(a, dict)):
+        return []
+    mine = 'ok' if res[0] == 'ok' else res[1]
+    if tw[0] in ('harness',):
+        return []
+    if mine != tw[0]:
+        return [(f'twin:outcome:{op["kind"]}', f'{op["kind"]} ends in {mine} on the edited document and in {tw[0]} on a deep copy of it taken just before')]
+    try:
+        text = intro.pr(root)
+    except Exception as e:
+        return [(f'twin:unprintable:{op["kind"]}', repr(e)[:120])]
+    if tw[0] != 'unprintable' and text != tw[1]:
+        i = next((k for k, (a, b) in enumerate(zip(text, tw[1])) if a != b), min(len(text), len(tw[1])))
+        return [(f'twin:text:{op["kind"]}', f'{op["kind"]} prints {text[max(0, i - 30):i + 30]!r} on the edited document and {tw[1][max(0, i - 30):i + 30]!r} on a deep copy '
+                 f'of it taken just before (first difference at {i})')]
+    return []
+
+
 def o_reads(root, pre, op, res, extra):
     """Every public attribute of every model of the document can be read (views iterated, mappings listed) without an
     internal error: a document some accessor of which raises is no longer usable, whatever else still looks right."""
@@ -431,7 +466,7 @@ def o_reads(root, pre, op, res, extra):
     return []
 
 
-ORACLES = {'reads': o_reads, 'fresh': o_fresh, 'nonedit': o_nonedit, 'census': o_census, 'inv': o_inv, 'refused': o_refused, 'frame': o_frame, 'reparse': o_reparse, 'nodouble': o_no_double}
+ORACLES = {'twin': o_twin, 'reads': o_reads, 'fresh': o_fresh, 'nonedit': o_nonedit, 'census': o_census, 'inv': o_inv, 'refused': o_refused, 'frame': o_frame, 'reparse': o_reparse, 'nodouble': o_no_double}
 
 
 def set_lf(lf):
@@ -467,7 +502,15 @@ def _run_history(text, auto_claim, ops, oracles, *, need_struct=False):
         except edits.DonorError:
             continue
         extra = arg_info(root, op, prepared)
+        twin = None
+        if 'twin' in oracles:
+            try:
+                twin = copy.deepcopy(root)
+            except Exception:
+                twin = None
         res = edits.apply_prepared(root, op, prepared)
+        if twin is not None:
+            extra['twin'] = _twin_outcome(twin, op)
         outcomes.append(res[:2] if res[0] == 'exc' else ('ok',))
         for o in oracles:
             try:
@@ -575,7 +618,15 @@ def _session(ctx, r, root, text, auto_claim, lf, nops, oracles, syntax_preservin
             for ob in observers:
                 ob.before(root, op, prepared, {'text': text, 'auto_claim': auto_claim, 'ops': ops + [op], 'lf': lf})
             extra = arg_info(root, op, prepared)
+            twin = None
+            if 'twin' in oracles:
+                try:
+                    twin = copy.deepcopy(root)      # a document with the same content and no history
+                except Exception:
+                    twin = None
             res = edits.apply_prepared(root, op, prepared)
+            if twin is not None:
+                extra['twin'] = _twin_outcome(twin, op)
             for ob in observers:
                 ob.after(root, op, prepared, res)
             ops.append(op)
